@@ -1,0 +1,140 @@
+//go:build verif
+// +build verif
+
+package redis
+
+import (
+	"sort"
+
+	"github.com/samaritan-proxy/samaritan/host"
+	"github.com/samaritan-proxy/samaritan/pb/config/service"
+	"github.com/samaritan-proxy/samaritan/proc"
+	"github.com/samaritan-proxy/samaritan/proc/internal/log"
+	"github.com/samaritan-proxy/samaritan/stats"
+)
+
+// VerifRig is a redis processor without sockets for the verification harness:
+// the real request path (handleRequest, handlers, chooseHost, split/merge,
+// handleResp/handleRedirection) over backend connections that only queue what
+// is sent to them. Compiled only with -tags verif.
+type VerifRig struct {
+	p     *redisProc
+	addrs []string
+}
+
+// VerifSent is a request that reached the queue of the backend connection Addr.
+type VerifSent struct {
+	Addr string
+	c    *client
+	req  *simpleRequest
+}
+
+// VerifRaw is a downstream request handed to handleRequest.
+type VerifRaw struct{ r *rawRequest }
+
+// VerifNewRig builds the processor; every address in addrs gets a queue-only backend connection.
+func VerifNewRig(name string, cfg *service.Config, hosts []*host.Host, addrs []string) *VerifRig {
+	logger := log.New("[verif]")
+	p := &redisProc{
+		name:     name,
+		cfg:      newConfig(cfg),
+		stats:    proc.NewStats(stats.CreateScope("verif." + name)),
+		logger:   logger,
+		cmdHdlrs: make(map[string]*commandHandler),
+	}
+	p.u = newUpstream(p.cfg, hosts, logger, p.stats.Upstream)
+	p.initCommandHandlers()
+	clients := make(map[string]*client)
+	for _, a := range addrs {
+		clients[a] = &client{
+			cfg:            p.cfg,
+			logger:         logger,
+			pendingReqs:    make(chan *simpleRequest, 1<<16),
+			processingReqs: make(chan *simpleRequest, 1),
+			onRedirection:  p.u.handleRedirection,
+			onClusterDown:  p.u.handleClusterDown,
+			quit:           make(chan struct{}),
+			done:           make(chan struct{}),
+		}
+	}
+	p.u.updateClients(clients)
+	sorted := append([]string{}, addrs...)
+	sort.Strings(sorted)
+	return &VerifRig{p: p, addrs: sorted}
+}
+
+// SetSlot makes master (with replicas) the owner of slots lo..hi in the routing table.
+func (r *VerifRig) SetSlot(lo, hi int, master string, replicas []string) {
+	inst := &instance{ID: master, Addr: master}
+	for _, a := range replicas {
+		inst.Replicas = append(inst.Replicas, &instance{ID: a, Addr: a, MasterID: master})
+	}
+	for s := lo; s <= hi && s < slotNum; s++ {
+		r.p.u.slots[s] = inst
+	}
+}
+
+// Handle runs the real redisProc.handleRequest on a request body.
+func (r *VerifRig) Handle(body *RespValue) *VerifRaw {
+	raw := newRawRequest(body)
+	r.p.handleRequest(raw)
+	return &VerifRaw{raw}
+}
+
+// Done reports whether the request has been answered.
+func (w *VerifRaw) Done() bool {
+	select {
+	case <-w.r.done:
+		return true
+	default:
+		return false
+	}
+}
+
+// Response is the reply (nil until Done).
+func (w *VerifRaw) Response() *RespValue { return w.r.resp }
+
+// Drain returns what has been queued on the backend connections since the last
+// call, connection by connection in address order, FIFO within a connection.
+func (r *VerifRig) Drain() []*VerifSent {
+	var out []*VerifSent
+	clients := r.p.u.loadClients()
+	for _, a := range r.addrs {
+		c := clients[a]
+		if c == nil {
+			continue
+		}
+	loop:
+		for {
+			select {
+			case req := <-c.pendingReqs:
+				out = append(out, &VerifSent{Addr: a, c: c, req: req})
+			default:
+				break loop
+			}
+		}
+	}
+	return out
+}
+
+// Body is the command as it would be written to the backend.
+func (s *VerifSent) Body() *RespValue { return s.req.body }
+
+// Reply delivers a backend reply through the real client.handleResp.
+func (s *VerifSent) Reply(v *RespValue) { s.c.handleResp(s.req, v) }
+
+// Stat reads a counter of the processor's stats scope by its flattened name suffix.
+func (r *VerifRig) Stats() *proc.Stats { return r.p.stats }
+
+// Hosts is upstream.Hosts().
+func (r *VerifRig) Hosts() []*host.Host { return r.p.u.Hosts() }
+
+// RefreshTriggered reports (and clears) a pending slots-refresh trigger.
+func (r *VerifRig) RefreshTriggered() bool {
+	select {
+	case <-r.p.u.slotsRefreshCh:
+		return true
+	default:
+		return false
+	}
+}
